@@ -1,4 +1,5 @@
 import BtcwVerif.Model.AddrTx
+import BtcwVerif.Model.AddrWallet
 -- engine: addrmgr-derive
 import Driver.Proto
 open Proto AddrDerive AddrSym
@@ -107,7 +108,90 @@ def parseOp (s : State Key Key) (t : List String) : Option (Op Key Key) :=
   | some "props" => do pure (.props (← sc) (← n "a"))
   | some "restart" => some .restart
   | some "convertwo" => some .convertWO
+  | some "dcache" => do pure (.deriveCache (← sc) (← n "a") (← n "ac") (← n "b") (← n "i"))
+  | some "rename" => do pure (.rename (← sc) (← n "a") (← n "name"))
   | _ => none
+
+-- ---------------------------------------------------------------------------------------------------------
+-- the wallet-level scenario `wmigrate` (two starts of a real `wallet.Wallet` with `InitAccounts`, then a third open)
+
+abbrev St := State Key Key
+
+def st (s : St) (op : Op Key Key) : St × Res Key := let r := step Cfg.fixed freeHD s op; (r.1, r.2.1)
+
+def resStr : Res Key → String
+  | .err e => "err:" ++ e.str
+  | .panic => "panic"
+  | _ => "ok"
+
+def isKeyRes : Res Key → Bool
+  | .key _ => true
+  | _ => false
+
+/-- `NextExternalAddresses(a,1)` and `NextInternalAddresses(a,1)` for the accounts `0 … n`; the ids of what was issued -/
+def wIssue (sc : Scope) : List Nat → St → List (AddrId Key) → St × List (AddrId Key)
+  | [], s, ids => (s, ids)
+  | a :: t, s, ids =>
+    let one := fun (s : St) (ids : List (AddrId Key)) (int : Bool) =>
+      let (s1, r) := st s (.next sc a 1 int 1)
+      match r, objOfHandle s1 1 with
+      | .addrs _, some (.key o) => (s1, ids ++ [chainId o])
+      | _, _ => (s1, ids)
+    let (s1, ids1) := one s ids false
+    let (s2, ids2) := one s1 ids1 true
+    wIssue sc t s2 ids2
+
+/-- `Wallet.DeriveFromKeyPath(scope, path)`: the cache path, else `DeriveFromKeyPath` + `PrivKey()` -/
+def wDerive (sc : Scope) (a ac b i : Nat) (s : St) : St × Bool :=
+  let (s1, r) := st s (.deriveCache sc a ac b i)
+  if isKeyRes r then (s1, true) else
+  let (s2, r2) := st s1 (.derive sc a ac b i 2)
+  match r2 with
+  | .addr _ => let (s3, r3) := st s2 (.privKey 2); (s3, isKeyRes r3)
+  | _ => (s2, false)
+
+def wDeriveAll (sc : Scope) (ac : Nat) : List (Nat × Nat × Nat) → St → Nat → St × Nat
+  | [], s, k => (s, k)
+  | (a, b, i) :: t, s, k =>
+    let (s1, ok) := wDerive sc a ac b i s
+    wDeriveAll sc ac t s1 (if ok then k + 1 else k)
+
+/-- the third open: every issued address is looked up (`known`), its private key asked for (`priv`) -/
+def wProbe (sc : Scope) : List (AddrId Key) → St → Nat → Nat → St × Nat × Nat
+  | [], s, kn, pr => (s, kn, pr)
+  | id :: t, s, kn, pr =>
+    let (s1, r) := st s (.lookup sc id 3)
+    match r with
+    | .addr _ =>
+      let (s2, r2) := st s1 (.privKey 3)
+      wProbe sc t s2 (kn + 1) (if isKeyRes r2 then pr + 1 else pr)
+    | _ => wProbe sc t s1 kn pr
+
+def wPaths (n : Nat) : List (Nat × Nat × Nat) :=
+  ((List.range (n + 1)).map fun a => [(a, 0, 0), (a, 1, 0), (a, 0, 1)]).flatten
+
+def wScenario (sc : Scope) (n1 : Nat) (w1 : Bool) (n2 : Nat) (w2 : Bool) (ac : Nat) : String :=
+  -- first start
+  let (s, _) := st emptyState (.create [0])
+  let (s, _) := st s (.unlock 0)
+  let r := opInitAccounts Cfg.fixed freeHD s sc w1 n1
+  let (s, i1) := (r.1, r.2.1)
+  let (s, ids) := wIssue sc (List.range (n1 + 1)) s []
+  -- `Wallet.DeriveFromKeyPath` for every account, twice (second round: all from the manager's caches)
+  let (s, dk1) := wDeriveAll sc ac (wPaths n1) s 0
+  let (s, dk) := wDeriveAll sc ac (wPaths n1) s dk1
+  -- second start
+  let (s, _) := st s .restart
+  let (s, u2) := st s (.unlock 0)
+  let r := opInitAccounts Cfg.fixed freeHD s sc w2 n2
+  let (s, i2) := (r.1, r.2.1)
+  let (s, ids) := wIssue sc (List.range (n2 + 1)) s ids
+  -- third start
+  let (s, _) := st s .restart
+  let wo := s.mem.watchOnly
+  let (s, u3) := st s (.unlock 0)
+  let (_, kn, pr) := wProbe sc ids s 0 0
+  s!"ok init1={resStr i1} dk={dk} unlock2={resStr u2} init2={resStr i2} wo={b01 wo} unlock3={resStr u3} issued={ids.length} known={kn} priv={pr} || "
 
 def stepLine (d : DS) (line : String) : DS × String :=
   let t := words line
@@ -117,6 +201,13 @@ def stepLine (d : DS) (line : String) : DS × String :=
     --  so a reverted fix shows up as a disagreement on top of the Go oracle's violation)
     let (s, r, rows) := step Cfg.fixed freeHD emptyState (.create [0])
     ({ st := s }, showRes r ++ " || " ++ showRows rows)
+  | some "wmigrate" =>
+    -- self-contained (its own wallet): `InitAccounts` on two consecutive starts, then what a third open shows
+    match ((kv t "s").bind parseScope), ((kv t "n1").bind String.toNat?), ((kv t "w1").bind parseBool),
+          ((kv t "n2").bind String.toNat?), ((kv t "w2").bind parseBool), ((kv t "ac").bind String.toNat?) with
+    | some sc, some n1, some w1, some n2, some w2, some ac =>
+      if n1 > 8 || n2 > 8 then (d, "bad-op") else (d, wScenario sc n1 w1 n2 w2 ac)
+    | _, _, _, _, _, _ => (d, "bad-op")
   | some "recreate" =>
     -- a second wallet created from the same seed issues the same addresses (C03_recreate_same): the model's
     -- issuance is a function of the root key alone, so the answer is constant
